@@ -177,6 +177,93 @@ def index_guard(tu):
     return dict(findings=findings, uses=uses, stores=stores)
 
 
+def seek_validates(tu):
+    """SEEK-VALIDATES: INDEX-GUARD trusts a successful BTreeItems_seek.  The
+    position it commits (self->currentbucket / self->currentoffset) must have
+    been tested `0 <= offset < bucket->len` against the *current* len of that
+    very bucket, with the failing side unable to reach the commit."""
+    fn = tu.func("BTreeItems_seek")
+    cfg = CFG(fn)
+    dom = cfg.dominators()
+    live = cfg.live_nodes()
+    stores = {}
+    for nd in live:
+        if nd.e is None:
+            continue
+        for a in nd.e.walk():
+            if a.k == "BinaryOperator" and a.v == "=":
+                lp = path(a.kids[0]) or ""
+                if lp.endswith("->currentoffset") or lp.endswith("->currentbucket"):
+                    stores[lp.split("->")[-1]] = (nd, path(a.kids[1]))
+    if set(stores) != {"currentoffset", "currentbucket"}:
+        raise AnalysisError("anchor vanished: cursor commit of BTreeItems_seek (%s)" % sorted(stores))
+    off = stores["currentoffset"][1]
+    bkt = stores["currentbucket"][1]
+    if off is None or bkt is None:
+        raise AnalysisError("BTreeItems_seek commits a non-variable position")
+
+    def validates(e):
+        """(has lower test, has upper test against bkt->len) in expression e"""
+        lo = up = False
+        for x in e.walk():
+            if x.k == "BinaryOperator" and x.v in ("<", ">=", ">", "<="):
+                a, b = strip(x.kids[0]), strip(x.kids[1])
+                if path(a) == off and const_int(b) == 0 and x.v == "<":
+                    lo = True
+                if path(a) == off and x.v == ">=" and b is not None and b.k == "MemberExpr" \
+                        and b.n == "len" and path(b.kids[0]) == bkt:
+                    up = True
+        return lo, up
+
+    def reach(start, stop):
+        seen, st = set(), [start]
+        while st:
+            q = st.pop()
+            if q.id in seen or q is stop:
+                continue
+            seen.add(q.id)
+            st.extend(s2 for _, s2 in q.succ)
+        return seen
+    findings = []
+    commit = stores["currentoffset"][0]
+    ok_lo = ok_up = False
+    for g in live:
+        if g.kind != "branch" or g.e is None or g.id not in dom[commit.id]:
+            continue
+        e = strip(g.e)
+        exprs = [e]
+        if e.k == "DeclRefExpr":
+            # a flag computed earlier: all of its definitions
+            exprs = []
+            for x in fn.walk():
+                if x.k == "BinaryOperator" and x.v == "=" and path(x.kids[0]) == e.n:
+                    exprs.append(x.kids[1])
+                elif x.k == "VarDecl" and x.n == e.n and x.kids and x.kids[-1].k != "Absent":
+                    exprs.append(x.kids[-1])
+            if not exprs:
+                continue
+        lo = all(validates(x)[0] for x in exprs)
+        up = all(validates(x)[1] for x in exprs)
+        if not (lo or up):
+            continue
+        fs = [s2 for l, s2 in g.succ if l == "T"]
+        if fs and commit.id not in reach(fs[0], g):
+            ok_lo = ok_lo or lo
+            ok_up = ok_up or up
+    if not (ok_lo and ok_up):
+        findings.append(dict(
+            rule="INDEX-GUARD", function="BTreeItems_seek", file=fn.f, line=commit.line,
+            construct="cursor position committed without `%s%s` test" % (
+                "" if ok_lo else "%s < 0 || " % off, "" if ok_up else "%s >= %s->len" % (off, bkt)),
+            detail="BTreeItems_seek stores (%s, %s) as the sequence's finger "
+                   "and reports success; its callers subscript the bucket "
+                   "with that offset without a test of their own. The bucket "
+                   "may have shrunk since the finger was parked, so the "
+                   "offset has to be tested against the bucket's current len "
+                   "(not its capacity) before it is committed" % (bkt, off), path=[]))
+    return dict(findings=findings, n=2)
+
+
 def cursor_exc(tu):
     """exceptions raised in the cursor functions are RuntimeError/IndexError"""
     findings = []
